@@ -201,7 +201,7 @@ func mutateBytes(r *Rng, s string) string {
 }
 
 func runC06(res *Result, tier string, seed int64, replay string) {
-	res.Rule = "(a) writer faults: for every document (fixtures + seeded grammar documents, all leaf kinds) the component tree — the whole document, its body, and every block / column / content component below it rendered on its own (the body buffers its blocks) — is rendered into a writer that fails at its k-th WriteString (once: later writes are accepted and flagged), for EVERY k from 1 to the number of writes: the returned error must be the injected error itself (==), what was written must be exactly the first k-1 writes of the fault-free run, and nothing may be written after the failure; (b) every outcome of every input is classified: HTML / HTML+validation error / error, anything else is a violation; (c) no panic, no hang (2 s deadline, recover): hostile values for every accepted attribute of every component in a legal context, byte-mutated fixtures and generated documents, nesting-depth probes up to 3 000 000 levels in a child process. Non-trivial = case that reaches the renderer or the parser's error path with a distinct input"
+	res.Rule = "(a) writer faults: for every document (fixtures + seeded grammar documents, all leaf kinds) the component tree — the whole document, its body, and every block / column / content component below it rendered on its own (the body buffers its blocks) — is rendered into a writer that fails at its k-th WriteString (once: later writes are accepted and flagged), for EVERY k from 1 to the number of writes: the returned error must be the injected error itself (==), what was written must be exactly the first k-1 writes of the fault-free run, and nothing may be written after the failure; (b) every outcome of every input is classified: HTML / HTML+validation error / error, anything else is a violation; (c) no panic, no hang (2 s deadline, recover): hostile values for every accepted attribute of every component in a legal context, malformed author HTML (stray / unclosed quotes, cut-off tags) in mj-text / mj-raw / mj-table with and without an inline style rule, byte-mutated fixtures and generated documents, nesting-depth probes up to 3 000 000 levels in a child process. Non-trivial = case that reaches the renderer or the parser's error path with a distinct input"
 	fixtures := loadFixtures()
 	var docs []struct{ name, src string }
 	if replay != "" {
@@ -538,6 +538,26 @@ func runC06(res *Result, tier string, seed int64, replay string) {
 			run("hostile-default", tag+"/"+a+"="+short(v, 12), src, true)
 		}
 	})
+	// ---- malformed author HTML under an inline style rule (the inline-style scanner parses every start tag of the content):
+	// stray quotes in front of quoted values, quotes that never close, '=' without a value, '<' inside values, a tag cut off
+	{
+		tags := []string{`<a b' c='d>link</a>`, `<p class="ka" it's title='x>hello</p>`, `<a 'x="> ' >y</a>`, `<p class="ka>open`, `<p class='ka`, `<p class=>`, `<p class= >x</p>`, `<p = class="ka">`,
+			`<p class="ka" x=">`, `<p "class"="ka">q</p>`, `<p class="ka"'>`, `<p class=ka'x">`, `<p class="ka" style=">x</p>`, `<p style='a:b" class="ka">x</p>`, `<`, `<p`, `<p class`, `<p class="`, `< p class="ka">`,
+			`<p class="ka"/`, `<p/ class="ka">`, `<p class="ka" ` + strings.Repeat(`'`, 41) + `>`, `<p ` + strings.Repeat(`a="`, 30) + `>`, `<p class="ka"><p class='ka'><p class=ka>`}
+		carriers := [][2]string{{`<mj-text>`, `</mj-text>`}, {`<mj-raw>`, `</mj-raw>`}, {`<mj-table><tr><td>`, `</td></tr></mj-table>`}}
+		for ti, tg := range tags {
+			for ci, c := range carriers {
+				for hi, head := range []string{`<mj-head><mj-style inline="inline">.ka { color: red; }</mj-style></mj-head>`, ``} {
+					inner := tg
+					if ci != 1 {
+						inner = "<![CDATA[" + tg + "]]>"
+					}
+					src := `<mjml>` + head + `<mj-body><mj-section><mj-column>` + c[0] + inner + c[1] + `</mj-column></mj-section></mj-body></mjml>`
+					run("author-html", fmt.Sprintf("%d/%d/%d", ti, ci, hi), src, true)
+				}
+			}
+		}
+	}
 	// ---- every element as the root of the document (what a truncated input looks like) ------------------------------------
 	for _, tag := range append(append([]string{}, bodyTags...), "mj-head", "mj-title", "mj-preview", "mj-attributes", "mj-font", "mj-style", "mj-breakpoint", "mj-all", "mj-class", "mj-raw", "div", "mjml", "mj-unknown") {
 		for _, inner := range []string{"", "T", "<mj-text>T</mj-text>"} {
